@@ -161,6 +161,14 @@ CLAIMED['C16'] = dict(
          'the counting language itself is not decided for unbounded length.',
     ref='5/C16')
 
+CLAIMED['C06'] = dict(
+    technique='who-may-write inventory of the cursor + exact set evaluation of the bump primitives + justification of every position-shortcut call site by path-sensitive byte facts (exact for atoms/strings/eol rules over five policies, class strings for scanners) + forwarding/lazy-recomputation structure',
+    text='Decides the structural decomposition of the statement, not a simulation of parsing runs: (1) only the bump primitives, constructors, restart/discard and rewind-guard restores write a cursor; (2) internal::bump is the per-byte definition, '
+         'bump_in_this_line / bump_to_next_line are what their names say; (3) every call of a shortcut in the headers (closed table of call sites, all covered) happens only on paths where the skipped bytes are known not to be / to end with the '
+         'line-ending character of the input; (4) inputs forward to the primitives with their own cursor and Eol::ch, lazy inputs recompute with internal::bump from the begin iterator, byte() includes the initial byte, sub-inputs inherit the position. '
+         'From these, eager == lazy == the documented function of the consumed prefix follows for all byte-oriented and UTF-8 rules. Known finding D08 (cr_crlf) is reported by (3).',
+    ref='5/C06')
+
 NOT_YET = 'check not built yet in this round (see DESIGN.md section 10 for the order of construction); no claim is made'
 
 NA_REASONS = {}
